@@ -29,6 +29,7 @@ type c06Case struct {
 	Ordinal   int      `json:"ordinal"`
 	Templates []string `json:"claim_templates"`
 	TmplLabel bool     `json:"templates_have_labels"`
+	TmplNS    string   `json:"template_namespace,omitempty"`
 	FailClaim int      `json:"fail_claim_create"` // index of the claim create that fails, -1 none
 	Existing  bool     `json:"claims_exist_in_cache"`
 	Failure   string   `json:"failure,omitempty"`
@@ -46,6 +47,7 @@ func c06Set(c *c06Case) *apps.StatefulSet {
 		if c.TmplLabel {
 			pvc.Labels = map[string]string{"own": "label"}
 		}
+		pvc.Namespace = c.TmplNS
 		set.Spec.VolumeClaimTemplates = append(set.Spec.VolumeClaimTemplates, pvc)
 	}
 	set.Spec.Template.Spec.Volumes = []v1.Volume{{Name: "scratch", VolumeSource: v1.VolumeSource{EmptyDir: &v1.EmptyDirVolumeSource{}}}}
@@ -168,26 +170,28 @@ func TestReplayC06(t *testing.T) {
 		for _, ord := range []int{0, 1, 7, 12, 2147483647} {
 			for _, tmpl := range [][]string{nil, {"data"}, {"data", "logs"}, {"a-1", "b", "c"}} {
 				for _, lab := range []bool{false, true} {
-					for _, existing := range []bool{false, true} {
-						for fail := -1; fail < len(tmpl); fail++ {
-							if found >= 3 {
-								break
+					for _, tns := range []string{"", "elsewhere"} {
+						for _, existing := range []bool{false, true} {
+							for fail := -1; fail < len(tmpl); fail++ {
+								if found >= 3 {
+									break
+								}
+								tried++
+								c := &c06Case{SetName: name, Ordinal: ord, Templates: tmpl, TmplLabel: lab, TmplNS: tns, FailClaim: fail, Existing: existing}
+								msg := c06Judge(c)
+								key := msg
+								if len(key) > 20 {
+									key = key[:20]
+								}
+								if msg == "" || seen[key] {
+									continue
+								}
+								seen[key] = true
+								c.Failure = msg
+								out, _ := json.Marshal(c)
+								fmt.Printf("REPRODUCED %s\n", out)
+								found++
 							}
-							tried++
-							c := &c06Case{SetName: name, Ordinal: ord, Templates: tmpl, TmplLabel: lab, FailClaim: fail, Existing: existing}
-							msg := c06Judge(c)
-							key := msg
-							if len(key) > 20 {
-								key = key[:20]
-							}
-							if msg == "" || seen[key] {
-								continue
-							}
-							seen[key] = true
-							c.Failure = msg
-							out, _ := json.Marshal(c)
-							fmt.Printf("REPRODUCED %s\n", out)
-							found++
 						}
 					}
 				}
@@ -195,6 +199,6 @@ func TestReplayC06(t *testing.T) {
 		}
 	}
 	if found == 0 {
-		fmt.Printf("NOT-REPRODUCED bounded search: %d runs (3 set names x 5 ordinals x 4 template lists x labels x cached claims x a failure at each claim create)\n", tried)
+		fmt.Printf("NOT-REPRODUCED bounded search: %d runs (3 set names x 5 ordinals x 4 template lists x labels x template namespace x cached claims x a failure at each claim create)\n", tried)
 	}
 }
